@@ -155,7 +155,8 @@ impl JsValue {
                 if y == 0 {
                     Self::nan()
                 } else {
-                    match x % y {
+                    // `i32::MIN % -1` overflows; its remainder is 0.
+                    match x.wrapping_rem(y) {
                         rem if rem == 0 && x < 0 => Self::new(-0.0),
                         rem => Self::new(rem),
                     }
@@ -756,7 +757,8 @@ impl JsValue {
             if y == 0 {
                 return Some(Self::nan());
             }
-            return Some(match x % y {
+            // `i32::MIN % -1` overflows; its remainder is 0.
+            return Some(match x.wrapping_rem(y) {
                 rem if rem == 0 && x < 0 => Self::new(-0.0),
                 rem => Self::new(rem),
             });
